@@ -339,13 +339,22 @@ def check_unit(pid, unit, tier, known):
                obligations=0, discharged=0, contract_obligations=0, samples=[], excluded_classes=[])
     loop_steps = set()
     # one CBMC job per function under contract; the jobs of a unit are independent and run concurrently
-    with cf.ThreadPoolExecutor(max_workers=int(os.environ.get('VERIF_FN_JOBS', '4'))) as fex:
+    with cf.ThreadPoolExecutor(max_workers=int(os.environ.get('VERIF_FN_JOBS', '6'))) as fex:
         futA = {fn: fex.submit(cbmc_job, unit, cfile, outdir, 'A', [], tier, fn) for fn in fns}
-        jobsA = {}
+        # job B (the same job with the witness classes of the open known findings excluded) does not depend on job A: start it alongside
+        futB = {}
+        for fn in fns:
+            ops = [k for k in known if k['property'] == pid and k['unit'] == unit['name'] and k['status'] == 'open' and k.get('function', fn) == fn]
+            if ops:
+                excl = ' && '.join('!(%s)' % k['witness_class'] for k in ops)
+                futB[fn] = fex.submit(cbmc_job, unit, cfile, outdir, 'B', ['KNOWN_EXCLUDE=(%s)' % excl], tier, fn)
+        jobsA, jobsB = {}, {}
         first_err = None
         for fn in fns:
             try:
                 jobsA[fn] = futA[fn].result()
+                if fn in futB:
+                    jobsB[fn] = futB[fn].result()
             except (Undecided, X.ExtractionError) as e:
                 first_err = first_err or e
         if first_err:
@@ -372,8 +381,7 @@ def check_unit(pid, unit, tier, known):
                                               (pid, k['what'], k['id'], unit['name'], k['witness_class']))
                 else:
                     res['known_lines'].append("note: known finding %s (property %s) did not fail in this run" % (k['id'], pid))
-            excl = ' && '.join('!(%s)' % k['witness_class'] for k in opens)
-            jobB = cbmc_job(unit, cfile, outdir, 'B', ['KNOWN_EXCLUDE=(%s)' % excl], tier, fn)
+            jobB = jobsB[fn]
             res['jobs'].append(jobB)
             canB, oblB = classify(jobB['results'], unit)
             _sanity(unit, jobB, canB, oblB, fn)
